@@ -225,4 +225,91 @@ PROPS = {
         "assumptions": ["hex_simd::encode writes only the 2*len bytes of its output (contract); checked by the "
                         "sentinel pattern in configurations default and hexsimd-only"],
     },
+    "C02": {
+        "modules": [T + "C02"],
+        "theorems": [(T + "C02.tables", T + "C02"),
+                     (T + "C02.body_backends_agree", T + "C02"),
+                     (T + "C02.body_distance_eq_spec", T + "C02"),
+                     (T + "C02.word_kernel_eq_spec", T + "C02"),
+                     (T + "C02.pseudo32_distance_eq_spec", T + "C02"),
+                     (T + "C02.ring_spec", T + "C02"),
+                     (T + "C02.length_distance_eq_spec", T + "C02"),
+                     (T + "C02.qratio_distance_eq_spec", T + "C02"),
+                     (T + "C02.checksum_distance_eq_spec", T + "C02"),
+                     (T + "C02.compare_eq_spec", T + "C02"),
+                     (T + "C02.compare_eq_spec_gen", T + "C02"),
+                     (T + "C02.max_distance_eq_spec", T + "C02"),
+                     (T + "C02.max_distance_eq_spec_gen", T + "C02")],
+        "bv_decide_theorems": {'TlshVerif.Theorems.C02.body_backends_agree', 'TlshVerif.Theorems.C02.pseudo32_distance_eq_spec', 'TlshVerif.Theorems.C02.compare_eq_spec_gen', 'TlshVerif.Theorems.C02.word_kernel_eq_spec', 'TlshVerif.Theorems.C02.compare_eq_spec', 'TlshVerif.Theorems.C02.body_distance_eq_spec'},
+        "extract_keys": ["kernel pseudo", "kernel sse", "kernel avx2Packed", "kernel avx2Distance", "dist_", "ring moduli", "distance scaling"],
+        "spec_is_property": True,
+        "streams": {
+            "quick": [("default", "cmp", 3000), ("default", "hdr", 0), ("default", "body", 3000),
+                      ("default", "bodyrows", 40), ("optdef", "cmp", 1500), ("embedded", "hdr", 0),
+                      ("embedded", "cmp", 1500), ("naive", "hdr", 0), ("static-sse2", "cmp", 1000),
+                      ("static-sse41", "cmp", 1000), ("static-avx2", "cmp", 1000)],
+            "thorough": [("default", "cmp", 100000), ("default", "hdr", 0), ("default", "body", 100000),
+                         ("default", "bodyrows", 1), ("optdef", "cmp", 30000), ("embedded", "hdr", 0),
+                         ("embedded", "cmp", 30000), ("naive", "hdr", 0), ("naive", "cmp", 30000),
+                         ("static-sse2", "cmp", 30000), ("static-sse41", "cmp", 30000),
+                         ("static-avx2", "cmp", 30000), ("unsafe", "cmp", 30000), ("default-dev", "cmp", 20000),
+                         ("default-dev", "body", 20000)],
+            "search": [("default", "bodyrows", 4), ("default", "cmp", 30000), ("default", "hdr", 0)],
+        },
+        "rule": "hdr: length / Q-ratio / ring / checksum distances for ALL 256x256 byte pairs through the compiled "
+                "code; bodyrows: for every `step`-th body position all 256x256 byte pairs against random backgrounds "
+                "through EVERY compiled back end (pseudo32, pseudo64, SSE2, SSE4.1, AVX2, dispatch) via the hooks",
+        "trusted_extra": ["bv_decide (LRAT-checked SAT, native evaluation of the checker): only in the word-level "
+                          "kernel lemmas of Lemmas/DistKernels.lean; theorems inheriting them are listed in "
+                          "tools/props.py bv_decide_theorems",
+                          "Model/Intrinsics.lean: hand-written lane semantics of the x86 intrinsics (validated "
+                          "against the CPU through the per-back-end hooks)"],
+        "assumptions": ["from_ne_bytes modelled little-endian (x86_64)",
+                        "pointer loads in the x86 back ends are modelled as list reads at the same offsets"],
+    },
+    "C08": {
+        "modules": [T + "C08", T + "C02"],
+        "theorems": [(T + "C08.dist_self", T + "C08"),
+                     (T + "C08.dist_comm", T + "C08"),
+                     (T + "C08.dist_eq_zero", T + "C08"),
+                     (T + "C08.dist_le_max", T + "C08"),
+                     (T + "C08.max_attained", T + "C08"),
+                     (T + "C08.default_eq_nolength_add_length", T + "C08"),
+                     (T + "C08.clear_checksum_law", T + "C08"),
+                     (T + "C08.dist_self_model", T + "C08"),
+                     (T + "C08.dist_comm_model", T + "C08"),
+                     (T + "C08.dist_eq_zero_model", T + "C08"),
+                     (T + "C08.dist_le_max_model", T + "C08"),
+                     (T + "C08.max_attained_model", T + "C08"),
+                     (T + "C08.default_eq_nolength_add_length_model", T + "C08"),
+                     (T + "C08.clear_checksum_law_model", T + "C08"),
+                     (T + "C02.tables", T + "C02")],
+        "bv_decide_theorems": {'TlshVerif.Theorems.C08.clear_checksum_law_model', 'TlshVerif.Theorems.C08.max_attained_model', 'TlshVerif.Theorems.C08.dist_eq_zero_model', 'TlshVerif.Theorems.C08.dist_le_max_model', 'TlshVerif.Theorems.C08.default_eq_nolength_add_length_model', 'TlshVerif.Theorems.C08.dist_self_model', 'TlshVerif.Theorems.C08.dist_comm_model'},
+        "spec_is_property": False,
+        "ignore_spec_mm": True,
+        "streams": {
+            "quick": [("default", "cmp", 4000), ("optdef", "cmp", 1500), ("embedded", "cmp", 1500)],
+            "thorough": [("default", "cmp", 150000), ("optdef", "cmp", 50000), ("embedded", "cmp", 50000),
+                         ("naive", "cmp", 50000), ("static-sse2", "cmp", 30000), ("unsafe", "cmp", 30000)],
+        },
+        "trusted_extra": ["bv_decide axioms inherited by the *_model corollaries through C02.compare_eq_spec"],
+        "assumptions": ["the laws are proved for Spec.distance and transferred to the model by C02; the probe also "
+                        "evaluates every law directly on the compiled code for each generated pair (ORACLE lines)"],
+    },
+    "C13": {
+        "modules": [T + "C13"],
+        "theorems": [(T + "C13.compare_with_match", T + "C13"),
+                     (T + "C13.compare_with_spec", T + "C13"),
+                     (T + "C13.compare_case_prefix_insensitive", T + "C13")],
+        "bv_decide_theorems": {'TlshVerif.Theorems.C13.compare_with_spec'},
+        "spec_is_property": True,
+        "streams": {
+            "quick": [("default", "cmpstr", 4000), ("embedded", "cmpstr", 1500), ("strict", "cmpstr", 1500)],
+            "thorough": [("default", "cmpstr", 100000), ("embedded", "cmpstr", 30000), ("strict", "cmpstr", 30000),
+                         ("quarter", "cmpstr", 30000), ("mintab", "cmpstr", 30000), ("unsafe", "cmpstr", 30000),
+                         ("default-dev", "cmpstr", 20000)],
+        },
+        "assumptions": ["str::parse / FromStr are thin wrappers around from_str_bytes(.., None)",
+                        "&str arguments: only valid UTF-8 strings are generated"],
+    },
 }
